@@ -5,6 +5,9 @@ VERIF = os.path.dirname(os.path.dirname(os.path.abspath(__file__)))
 
 # id -> (category, technique, text, note, design_ref)
 CHECKS = {
+    'C07': ('exploration', 'monitoring of the real PostsolveSolution -> solution check path inside the real driver (mpmon, ASan build) with scripted candidate points; exact reference evaluation of the NL model',
+            'Random models of the exact fragment (all flat types native) get up to 14 candidate points each: feasible, violating constraints, off a bound, fractional integers, on/just beyond an absolute tolerance of 1/4; every point is completed with the true values of all auxiliary variables and objectives and pushed through the real check under sol:chk:mode in {default,3,31,96,99,1023,0}; the check must report iff the exact NL evaluation says violated, and a separate run with sol:chk:fail must end with solve_result 150 iff violated.',
+            'points are exact or violate by a clear margin; in the tolerance configuration only lines about original items are judged at within-tolerance points; points on which NL model and delivered model disagree (C01/C06 defects) are skipped and counted; one known finding (recomputed-only modes miss a root logical constraint expressed through a LinearFunctionalConstraint)', '2/C07'),
     'C04': ('exploration', 'trace and history monitoring of the real driver (mpmon, ASan build): scripted solver answers and scripted pre/postsolve histories through the real ValuePresolver, judged against rows identified by content',
             'Random models (nonlinear/logical part + linear constraints with unique coefficient vectors + quadratic ranges) under four acceptance configurations receive scripted primal/dual/basis/IIS answers (exact, longer than the model, absent) and incoming sstatus/priority/lazy suffixes and initial guesses; the .sol file and every logged transfer are compared exactly with the scripted vectors through the documented mapping, value counts with the NL item counts, and every repetition of one of 7 pre/postsolve calls inside a random history of 6..14 calls with its first result.',
             'values are judged only for original variables and for purely linear constraints whose delivered row is identified uniquely by content (plus the warm-start slack of converted ranges); other constraints only for counts and history independence; variable IIS codes restricted to non/low/fix/upp', '2/C04'),
